@@ -27,6 +27,8 @@ func c19(w *core.World, r *core.Report) {
 	ruleHandleReply(w, r)
 	r.Rule("R19.3", "sender retry bounded and never swallows (all paths)", 2)
 	ruleSenderRetry(w, r)
+	r.Rule("R19.12", "transactional mode on a cluster target: a batch answered with MOVED, ASK or CROSSSLOT is never sent again within the run", 1)
+	ruleNoResendAfterRedirect(w, r)
 	r.Rule("R19.4", "per-node order: append-only lists, forward send/receive, index reassembly", 4)
 	rulePerNodeOrder(w, r)
 	r.Rule("R19.5", "transaction re-dispatched only after a resolved redirect, bounded, commands untouched", 3)
@@ -820,4 +822,187 @@ func blockReaches(from, to *ssa.BasicBlock) bool {
 		work = append(work, b.Succs...)
 	}
 	return false
+}
+
+
+// ---------------------------------------------------------------- R19.12 no re-send of a redirected transactional batch
+
+// errIsGlobal recognises errors.Is(_, <package-level error named global>).
+func errIsGlobal(v ssa.Value, globals ...string) bool {
+	c, ok := core.Unwrap(v).(*ssa.Call)
+	if !ok || core.ResolveCall(c).Name != "errors.Is" || len(c.Call.Args) != 2 {
+		return false
+	}
+	ld, ok := c.Call.Args[1].(*ssa.UnOp)
+	if !ok {
+		return false
+	}
+	g, ok := ld.X.(*ssa.Global)
+	if !ok {
+		return false
+	}
+	for _, n := range globals {
+		if g.Name() == n {
+			return true
+		}
+	}
+	return false
+}
+
+// factsBetween: the branch outcomes the path passed strictly between two of its instructions.
+func factsBetween(p *core.Path, from, to ssa.Instruction) []core.Fact {
+	var out []core.Fact
+	ci := 0
+	inside := false
+	for _, in := range p.Instrs {
+		if in == to && inside {
+			break
+		}
+		if iff, ok := in.(*ssa.If); ok {
+			// facts are appended in the order the branches are passed
+			for ci < len(p.Conds) && p.Conds[ci].If != iff {
+				ci++
+			}
+			if ci < len(p.Conds) {
+				if inside {
+					out = append(out, p.Conds[ci])
+				}
+				ci++
+			}
+		}
+		if in == from {
+			inside = true
+		}
+	}
+	return out
+}
+
+// ruleNoResendAfterRedirect: a MOVED/ASK/CROSSSLOT answer to a batch means
+// part of it may already have been executed by the node that owned the
+// earlier keys. Re-sending rebuilds the whole batch; in transactional mode on
+// a cluster target (where the property promises at-most-once within a run)
+// the sender must hand the error up instead. Every second attempt on a path
+// whose first attempt was classified as a redirect must therefore have ruled
+// out 'transactional and cluster'.
+func ruleNoResendAfterRedirect(w *core.World, r *core.Report) {
+	c := newSenderCtx(w, r)
+	if c == nil {
+		return
+	}
+	send := c.send
+	txn := c.txnModeParam()
+	isTxnMode := func(p *core.Path, v ssa.Value) bool {
+		v = p.Resolve(v)
+		if fieldNameOfLoad(v) == "CanTransaction" {
+			return true
+		}
+		if txn != nil {
+			if v == ssa.Value(txn) {
+				return true
+			}
+			// captured by the retry closure
+			if fv, ok := v.(*ssa.FreeVar); ok && paramBehindFreeVar(fv) == ssa.Value(txn) {
+				return true
+			}
+			if ld, ok := v.(*ssa.UnOp); ok && ld.Op == token.MUL {
+				if fv, isFv := ld.X.(*ssa.FreeVar); isFv && paramBehindFreeVar(fv) == ssa.Value(txn) {
+					return true
+				}
+			}
+		}
+		return false
+	}
+	isClusterCall := func(v ssa.Value) bool {
+		call, ok := core.Unwrap(v).(*ssa.Call)
+		if !ok {
+			return false
+		}
+		n := core.ResolveCall(call).Name
+		return strings.HasSuffix(n, ".IsCluster") || strings.HasSuffix(n, ").IsCluster")
+	}
+	bad := ""
+	var badPos token.Pos = send.Pos()
+	pairs, redirected := 0, 0
+	okEnum := core.EnumPathsN(send.Blocks[0], 0, 200000, 3, func(p *core.Path) {
+		if bad != "" {
+			return
+		}
+		var attempts []ssa.Instruction
+		for _, in := range p.Instrs {
+			if ci, ok := in.(*ssa.Call); ok && core.ResolveCall(ci).Callee == c.once {
+				attempts = append(attempts, in)
+			}
+		}
+		for k := 0; k+1 < len(attempts); k++ {
+			pairs++
+			fs := factsBetween(p, attempts[k], attempts[k+1])
+			redirect, ruledOut := false, false
+			for _, f := range fs {
+				cond := p.Resolve(f.Cond)
+				if f.Val && errIsGlobal(cond, "ErrMove", "ErrAsk", "ErrCrossSlots") {
+					redirect = true
+				}
+				if !f.Val && (isTxnMode(p, cond) || isClusterCall(cond)) {
+					ruledOut = true
+				}
+			}
+			if !redirect {
+				continue
+			}
+			redirected++
+			if !ruledOut {
+				bad, badPos = "a batch that was answered with MOVED, ASK or CROSSSLOT is sent again on a path that has not ruled out 'transactional mode on a cluster target': the commands ahead of the redirected one were already executed and run a second time", attempts[k+1].Pos()
+			}
+		}
+	})
+	if !okEnum {
+		r.Undecided("sendFunc/no-resend-after-redirect", send.Pos(), "too many paths")
+		return
+	}
+	r.Check(bad == "" && pairs > 0, "sendFunc/no-resend-after-redirect", badPos, "%s (retries on enumerated paths=%d, after a redirect=%d)", bad, pairs, redirected)
+}
+
+// paramBehindFreeVar: the enclosing function's parameter a captured variable stands for
+// (the parameter's spill cell, or the parameter itself).
+func paramBehindFreeVar(fv *ssa.FreeVar) ssa.Value {
+	fn := fv.Parent()
+	if fn == nil || fn.Parent() == nil {
+		return nil
+	}
+	idx := -1
+	for i, v := range fn.FreeVars {
+		if v == fv {
+			idx = i
+		}
+	}
+	if idx < 0 {
+		return nil
+	}
+	for _, in := range core.OwnInstrs(fn.Parent()) {
+		mc, ok := in.(*ssa.MakeClosure)
+		if !ok || mc.Fn != ssa.Value(fn) || idx >= len(mc.Bindings) {
+			continue
+		}
+		b := mc.Bindings[idx]
+		if par, isP := b.(*ssa.Parameter); isP {
+			return par
+		}
+		if cell := core.Cell(b); cell != nil {
+			for _, st := range core.CellStores(cell) {
+				if par, isP := st.Val.(*ssa.Parameter); isP {
+					return par
+				}
+			}
+		}
+		if al, isA := b.(*ssa.Alloc); isA {
+			for _, ref := range *al.Referrers() {
+				if st, isSt := ref.(*ssa.Store); isSt && st.Addr == ssa.Value(al) {
+					if par, isP := st.Val.(*ssa.Parameter); isP {
+						return par
+					}
+				}
+			}
+		}
+	}
+	return nil
 }
